@@ -72,14 +72,17 @@ def judge(chk, stream, seed, n_args, opts, cases, res):
                     elif o[0] == "other":
                         chk.inconc("no-verdict:" + str(list(got)[:1]))
                     else:
-                        tags = sorted(f for f in c["features"] if f.startswith("known:"))
-                        lz = A.lazy_outcome(seed, c["index"], n_args, opts, e["name"], k)
-                        if lz and lz[0] == "ok" and o[0] == "ok" and o[1] == lz[1]:
-                            key = "C01|disagree|call-by-need"
+                        # exact attribution: a label is returned only when re-interpreting the source under
+                        # exactly that recorded deviation reproduces the compiled outcome (aiken_ref.explain)
+                        try:
+                            label = run_c01.explain(seed, c["index"], n_args, opts, e["name"], k, run["tracing"], got)
+                        except Exception as ex:  # classification only
+                            label = None
+                            chk.count("explain_errors")
+                        if label:
+                            key = "C01|disagree|" + label
                         elif o[0] == "abort" and o[1] in A.STRUCTURAL:
-                            key = "C01|disagree|structural-machine-error|" + o[1] + ("|" + "+".join(tags) if tags else "")
-                        elif tags:
-                            key = "C01|disagree|" + "+".join(tags)
+                            key = "C01|disagree|structural-machine-error|" + o[1]
                         else:
                             key = "C01|disagree|unexplained|" + ("value-vs-abort" if exp[0] != o[0] else "value-differs")
                         chk.violation(key, w)
